@@ -76,6 +76,17 @@ func ruleSplitGuard(c *chk.Ctx) {
 		// found(cd): +1 when the outcome says the delimiter does not occur in the message, -1 when
 		// it says it does, 0 when it is about something else
 		found := func(cd ir.Cond) int {
+			if call, isCall := cd.V.(*ssa.Call); isCall && strings.HasPrefix(ir.CalleeName(&call.Call), "slices.Contains") && len(call.Call.Args) == 2 {
+				// slices.Contains(msg, delim) on the byte slice is a byte search
+				if _, isParam := c.P.Canon(call.Call.Args[0]).(*ssa.Parameter); isParam {
+					if u, isU := call.Call.Args[1].(*ssa.UnOp); isU && isFieldLoadNamed(u, delim) {
+						if cd.Truth {
+							return -1
+						}
+						return 1
+					}
+				}
+			}
 			x, y, op, ok := ir.Rel(cd)
 			if !ok {
 				// only a byte search decides this: bytes.ContainsRune looks for the UTF-8 encoding
@@ -195,10 +206,31 @@ func ruleHeaderAgreement(c *chk.Ctx) {
 				if op == nil || *op == nil {
 					continue
 				}
-				if s, ok := constString(*op); ok && strings.HasSuffix(s, ": ") && !strings.Contains(s, "%") {
-					written[strings.ToLower(strings.TrimSuffix(s, ": "))] = ins.Pos()
-					if f.Name() == "Send" {
-						sendFn = f
+				if s, ok := constString(*op); ok {
+					// header names in the text: "Name: " at the start of the constant or after a line
+					// break (a format string such as "Content-Length: %d\r\n" counts too)
+					for _, line := range strings.Split(s, "\n") {
+						i := strings.Index(line, ": ")
+						if i <= 0 {
+							continue
+						}
+						name := line[:i]
+						okName := true
+						for _, r := range name {
+							if !(unicode.IsLetter(r) || r == '-') {
+								okName = false
+							}
+						}
+						if !okName || strings.Contains(name, " ") {
+							continue
+						}
+						// only in functions that write to the channel's output
+						if f.Name() == "Send" || strings.Contains(strings.ToLower(name), "content-") {
+							written[strings.ToLower(name)] = ins.Pos()
+							if f.Name() == "Send" {
+								sendFn = f
+							}
+						}
 					}
 				}
 			}
@@ -212,12 +244,52 @@ func ruleHeaderAgreement(c *chk.Ctx) {
 	if sendFn != nil {
 		okLen, okBody, nWrites := false, false, 0
 		var msg ssa.Value
+		lenOfParam := func(v ssa.Value) ssa.Value {
+			for i := 0; i < 3; i++ {
+				if cv, ok := v.(*ssa.Convert); ok {
+					v = cv.X
+					continue
+				}
+				if mi, ok := v.(*ssa.MakeInterface); ok {
+					v = mi.X
+					continue
+				}
+				break
+			}
+			if x, isLen := ir.LenOf(v); isLen {
+				if _, isParam := x.(*ssa.Parameter); isParam {
+					return x
+				}
+			}
+			return nil
+		}
 		ir.Calls(sendFn, func(ci ssa.CallInstruction) {
 			cc := ci.Common()
-			if ir.IsCallTo(cc, "strconv.Itoa") {
-				if x, isLen := ir.LenOf(cc.Args[0]); isLen {
-					if _, isParam := x.(*ssa.Parameter); isParam {
-						okLen, msg = true, x
+			switch {
+			case ir.IsCallTo(cc, "strconv.Itoa"):
+				if x := lenOfParam(cc.Args[0]); x != nil {
+					okLen, msg = true, x
+				}
+			case ir.IsCallTo(cc, "strconv.FormatInt") && len(cc.Args) == 2:
+				if x := lenOfParam(cc.Args[0]); x != nil {
+					okLen, msg = true, x
+				}
+			case ir.IsCallTo(cc, "strconv.AppendInt") && len(cc.Args) == 3:
+				if x := lenOfParam(cc.Args[1]); x != nil {
+					okLen, msg = true, x
+				}
+			case ir.IsCallTo(cc, "fmt.Fprintf", "fmt.Sprintf", "fmt.Appendf"):
+				fi := 0
+				if ir.IsCallTo(cc, "fmt.Fprintf", "fmt.Appendf") {
+					fi = 1
+				}
+				if fs, isS := constString(cc.Args[fi]); isS && strings.Contains(strings.ToLower(fs), "content-length: %d") {
+					if els, _ := c.P.ElementValues(cc.Args[len(cc.Args)-1]); len(els) >= 1 {
+						for _, e := range els {
+							if x := lenOfParam(e); x != nil {
+								okLen, msg = true, x
+							}
+						}
 					}
 				}
 			}
@@ -884,32 +956,50 @@ func ruleContentType(c *chk.Ctx) {
 			}
 			n++
 			// the phi/assignment of nil to err is governed by ok ∧ Got == ""
-			okClear := false
+			// every way the receiver can hand back a nil error after the type assertion: a phi edge
+			// carrying nil, or a return of the nil constant
+			type clearing struct{ conds []ir.Cond }
+			var clears []clearing
 			for _, r := range ir.Returns(f) {
-				ev := ir.ReturnResult(r, 1)
-				phi, isPhi := ev.(*ssa.Phi)
-				if !isPhi {
+				if !ir.InstrDominates(ta, r) {
 					continue
 				}
-				for i, e := range phi.Edges {
-					if !ir.IsNilConst(e) {
-						continue
-					}
-					var kinds []string
-					for _, cd := range ir.EdgeConds(phi.Block().Preds[i], phi.Block()) {
-						if ex, ok := cd.V.(*ssa.Extract); ok && ex.Tuple == ssa.Value(ta) && ex.Index == 1 && cd.Truth {
-							kinds = append(kinds, "isMismatch")
-						}
-						if bo, ok := cd.V.(*ssa.BinOp); ok && bo.Op == token.EQL && cd.Truth {
-							if s, isS := constString(bo.Y); isS && s == "" {
-								kinds = append(kinds, "Got==\"\"")
-							}
+				ev := ir.ReturnResult(r, 1)
+				if phi, isPhi := ev.(*ssa.Phi); isPhi {
+					for i, e := range phi.Edges {
+						if ir.IsNilConst(e) {
+							clears = append(clears, clearing{ir.EdgeConds(phi.Block().Preds[i], phi.Block())})
 						}
 					}
-					sort.Strings(kinds)
-					if strings.Join(kinds, "∧") == "Got==\"\"∧isMismatch" {
-						okClear = true
+					continue
+				}
+				if ir.IsNilConst(ev) {
+					for _, alt := range ir.CondAltsAt(r.Block()) {
+						for _, a := range expandPredicateHelpers(c, alt, 0) {
+							clears = append(clears, clearing{a})
+						}
 					}
+				}
+			}
+			okClear := len(clears) > 0
+			for _, cl := range clears {
+				var kinds []string
+				for _, cd := range cl.conds {
+					if ex, ok := cd.V.(*ssa.Extract); ok && ex.Tuple == ssa.Value(ta) && ex.Index == 1 && cd.Truth {
+						kinds = append(kinds, "isMismatch")
+					}
+					if x, y, op, ok := ir.Rel(cd); ok && op == token.EQL {
+						sy, isY := constString(y)
+						sx, isX := constString(x)
+						if (isY && sy == "") || (isX && sx == "") {
+							kinds = append(kinds, "Got==\"\"")
+						}
+					}
+				}
+				kinds = dedupStrings(kinds)
+				sort.Strings(kinds)
+				if strings.Join(kinds, "∧") != "Got==\"\"∧isMismatch" {
+					okClear = false
 				}
 			}
 			c.Check(okClear, "TABLE.ctype", f, "lenient receiver forgives only an absent type", ta.Pos(), "the error is cleared exactly when it is a mismatch error with an empty observed type", "the lenient receiver clears errors other than 'content type absent'")
